@@ -41,6 +41,32 @@ def asm_items(asm):
     return out
 
 
+def compress(items):
+    """a run of opaque non-halting items is one opaque item (the model does not look inside straight-line code)"""
+    out = []
+    for k, v in items:
+        if k == "O" and v not in TERMINAL:
+            if out and out[-1] == ("O", "OPS"):
+                continue
+            out.append(("O", "OPS"))
+        else:
+            out.append((k, v))
+    return out
+
+
+def reduce_fn(fn):
+    """what the validator reads of a Venom function: per block the terminator and the last code-emitting instruction
+    (opcode and outputs only)"""
+    blocks = []
+    for lab, insts in fn["blocks"]:
+        if not insts:
+            blocks.append((lab, []))
+            continue
+        code = [i for i in insts[:-1] if i[0] not in NOCODE]
+        blocks.append((lab, ([(code[-1][0], (), code[-1][2])] if code else []) + [insts[-1]]))
+    return {"name": fn["name"], "blocks": blocks}
+
+
 def region(items, fn_labels, other_labels, is_first):
     """indices [a, b) of the code of the function whose block labels are fn_labels + the jump-table entries after it"""
     pos = [i for i, (k, v) in enumerate(items) if k == "L" and v in fn_labels]
@@ -87,7 +113,12 @@ class Cert:
             t = n
         return t
 
-    def _forms_at_end(self, T, end, present, nxt):
+    @staticmethod
+    def _cond_is_iszero(T, blk):
+        code = [i for i in blk[:-1] if i[0] not in NOCODE]
+        return bool(code) and T[1][0][0] == "var" and code[-1][0] == "iszero" and code[-1][2] == (T[1][0][1],)
+
+    def _forms_at_end(self, T, end, present, nxt, blk=()):
         """lowerings of terminator T that end exactly at index `end` (nxt = label of the block starting at `end`)"""
         it = self.items
         op = T[0]
@@ -110,6 +141,8 @@ class Cert:
                 return end - 2
             if nxt == rt and at(end - 3, [("Z", None), ("P", re), ("I", None)]):
                 return end - 3
+            if nxt == rt and self._cond_is_iszero(T, blk) and at(end - 2, [("P", re), ("I", None)]):
+                return end - 2
             return None
         if op == "djmp":
             return end - 1 if at(end - 1, [("J", None)]) else None
@@ -147,7 +180,7 @@ class Cert:
                 if T is None:
                     self.error = f"empty block {b}"
                     return self
-                tp = self._forms_at_end(T, e, present_names, nxt)
+                tp = self._forms_at_end(T, e, present_names, nxt, B[b])
                 # the chain continues if a successor of b has no label and is not placed yet
                 cont = [s for s in (self.res(x, present_names) for x in _labels(T))
                         if s in B and s not in labelled and s not in self.present and s != b and T[0] in ("jmp", "jnz")]
@@ -165,7 +198,8 @@ class Cert:
                             rt_, re_ = self.res(t_, trial), self.res(e_, trial)
                             seg = it[cur:e]
                             ok = any(seg[q:q + 2] == [("P", rt_), ("I", None)] for q in range(len(seg))) if re_ in sub else \
-                                any(seg[q:q + 3] == [("Z", None), ("P", re_), ("I", None)] for q in range(len(seg)))
+                                any(seg[q:q + 3] == [("Z", None), ("P", re_), ("I", None)] or
+                                    (self._cond_is_iszero(T, B[b]) and seg[q:q + 2] == [("P", re_), ("I", None)]) for q in range(len(seg)))
                         if ok:
                             present_names.update(sub)
                             done = True
@@ -195,6 +229,9 @@ class Cert:
                         break
                     if rt in cont and p + 3 <= e and it[p:p + 3] == [("Z", None), ("P", re), ("I", None)]:
                         found = (p, p + 3, rt)
+                        break
+                    if rt in cont and self._cond_is_iszero(T, B[b]) and it[p:p + 2] == [("P", re), ("I", None)]:
+                        found = (p, p + 2, rt)
                         break
                 if found is None:
                     self.error = f"no fall-through lowering of the jnz of {b} found"
@@ -234,7 +271,7 @@ def export(fn, items, cert):
             return f"OVar {v(o[1])}%N"
         return f"OLab {L(o[1])}%N"
     blocks = []
-    for _, insts in fn["blocks"]:
+    for _, insts in reduce_fn(fn)["blocks"]:
         blocks.append("[" + "; ".join(f'mkI "{i[0]}" [' + "; ".join(operand(o) for o in i[1]) + "] [" +
                                       "; ".join(f"{v(o)}%N" for o in i[2]) + "]" for i in insts) + "]")
     out = []
@@ -311,7 +348,7 @@ def machine(items, pc, stack, limit=12):
 def search(fn, items):
     """for every labelled block whose segment ends with the lowering of its terminator: land where Venom says?"""
     B = dict(fn["blocks"])
-    labs = [(i, v) for i, (k, v) in enumerate(items) if k == "L"]
+    labs = [(i, v) for i, (k, v) in enumerate(items) if k == "L" and v in B]     # internal labels (return_label_N, ...) are body
     seen = {}
     for i, v in labs:
         if v in B and v in seen:
@@ -352,23 +389,36 @@ def search(fn, items):
             continue
         # the lowering is recognised by its shape at the end of the segment (longest first); unknown shape: inconclusive
         kinds = "".join(k for k, _ in items[i + 1:end])
-        shapes = ["PIPJ", "ZPI", "PI"] if T[0] == "jnz" else ["PJ"]
-        ln = next((len(sh) for sh in shapes if kinds.endswith(sh)), None)
-        if ln is None:
-            if T[0] == "jmp" and end < len(items) and items[end][0] == "L" and not kinds.endswith("J"):
-                ln = 0
-            else:
-                continue
-        if T[0] == "jnz" and ln < 4 and not (end < len(items) and items[end][0] == "L"):
+        nxt_is_label = end < len(items) and items[end][0] == "L"
+        if T[0] == "jnz":
+            # admissible readings of the end of the segment (an ISZERO in front may belong to the body)
+            lens = [n_ for sh, n_ in (("PIPJ", 4), ("ZPI", 3), ("PI", 2)) if kinds.endswith(sh) and (n_ == 4 or nxt_is_label)]
+        else:
+            lens = [2] if kinds.endswith("PJ") else ([0] if nxt_is_label and not kinds.endswith("J") else [])
+        if not lens:
             continue
-        for cond, target in want.items():
-            got = machine(items, end - ln, [] if cond is None else [cond])
-            if got != ("label", target):
-                return {"problem": f"the code emitted for the terminator of block {b} does not reach {target}"
-                                   + ("" if cond is None else f" when the condition is {cond}"),
-                        "block": b, "terminator": f"{T[0]} " + ", ".join(str(a[1]) for a in T[1]),
-                        "assembly_tail": asm_text(items[max(i, end - 8):min(len(items), end + 1)]),
-                        "landed": str(got)}
+        code = [x for x in B[b][:-1] if x[0] not in NOCODE]
+        fused = (T[0] == "jnz" and code and code[-1][0] == "iszero" and T[1][0][0] == "var" and code[-1][2] == (T[1][0][1],))
+        verdicts = []
+        for ln in lens:
+            bad_ = None
+            for cond, target in want.items():
+                got = machine(items, end - ln, [] if cond is None else [cond])
+                if got != ("label", target) and fused and ln == 2:
+                    # the ISZERO of the lowering may have been fused with the iszero that produces the condition
+                    if machine(items, end - ln, [0 if cond else 7]) == ("label", target):
+                        continue
+                if got != ("label", target):
+                    bad_ = (cond, target, got)
+                    break
+            verdicts.append(bad_)
+        if all(v is not None for v in verdicts):
+            cond, target, got = verdicts[0]
+            return {"problem": f"the code emitted for the terminator of block {b} does not reach {target}"
+                               + ("" if cond is None else f" when the condition is {cond}"),
+                    "block": b, "terminator": f"{T[0]} " + ", ".join(str(a[1]) for a in T[1]),
+                    "assembly_tail": asm_text(items[max(i, end - 8):min(len(items), end + 1)]),
+                    "landed": str(got)}
     for i, (k, v) in enumerate(items):
         if k == "D" and v in B and res(v) not in emitted:
             return {"problem": f"jump-table entry {v} has no JUMPDEST (label not emitted)"}
@@ -423,6 +473,7 @@ class AsmObserver:
                 if rg is None:
                     continue
                 sl = items[rg[0]:rg[1]] + [x for x in items[rg[1]:] if x[0] == "D" and x[1] in all_labels[k]]
+                sl = compress(sl)
                 if len(sl) > self.max_items:
                     self.too_big += 1
                     continue
@@ -435,3 +486,193 @@ class AsmObserver:
 def asm_text(items):
     names = {"L": "LABEL ", "P": "PUSHLABEL ", "J": "JUMP", "I": "JUMPI", "Z": "ISZERO", "D": "DATA ", "H": "DATAHEADER "}
     return " ".join((str(v) if k == "O" else names[k] + (str(v) if v else "")) for k, v in items)
+
+
+# ------------------------------------------------------------------ IR families through the real back end
+def backendable(text):
+    """the hand-written / generated families write to literal addresses; the pipeline wants abstract memory: route every
+    mstore/return/revert through one alloca of the entry block"""
+    import re
+    lines = text.split("\n")
+    out = []
+    n = [0]
+    entry_done = False
+    for ln in lines:
+        m = re.match(r"^(\s*)mstore (\d+), (.*)$", ln)
+        if ln.strip().endswith(":") and not entry_done:
+            out.append(ln)
+            out.append("    %mem0 = alloca 256")
+            entry_done = True
+            continue
+        if m:
+            n[0] += 1
+            out.append(f"{m.group(1)}%ma{n[0]} = add %mem0, {m.group(2)}")
+            out.append(f"{m.group(1)}mstore %ma{n[0]}, {m.group(3)}")
+            continue
+        m = re.match(r"^(\s*)(return|revert) (\d+), (\d+)$", ln)
+        if m:
+            out.append(f"{m.group(1)}{m.group(2)} %mem0, {m.group(4)}")
+            continue
+        out.append(ln)
+    return "\n".join(out)
+
+
+def run_families(obs, rnd, n_random):
+    from vyper.compiler.settings import OptimizationLevel, Settings, VenomOptimizationFlags, set_global_settings
+    from vyper.venom import generate_assembly_experimental, run_passes_on
+    from vyper.venom.parser import parse_venom
+    from . import c14g_families as FAM
+    set_global_settings(Settings(evm_version="cancun"))
+    ok = fail = 0
+    for name, text in FAM.programs(rnd, n_random):
+        for lvl in (OptimizationLevel.NONE, OptimizationLevel.CODESIZE):
+            obs.origin = f"family:{name}:{lvl.name}"
+            try:
+                ctx = parse_venom(backendable(text))
+                run_passes_on(ctx, VenomOptimizationFlags(level=lvl))
+                generate_assembly_experimental(ctx, OptimizationLevel.O2)
+                ok += 1
+            except Exception:
+                fail += 1
+    obs.origin = None
+    return ok, fail
+
+
+COQ_MODEL = ["C14G/CfgSem.v", "C14G/CfgCheck.v", "C14G/AsmCfg.v"]
+COQ_PROOFS = ["C14G/CfgSemProofs.v", "C14G/AsmCfgProofs.v"]
+
+
+def part_asm_cfg(ctx):
+    import signal
+    import time
+    import warnings
+    from .common import COQ
+    t0 = time.time()
+    bm = ctx.coq_build_cached(COQ_MODEL)
+    b = ctx.coq_build_cached(COQ_PROOFS, deps=COQ_MODEL) if bm["ok"] else bm
+    model_ok = (COQ / "C14G" / "AsmCfg.vo").exists()
+    from vlib import c14_pass_corpus as PC
+    from vyper.compiler import compile_code
+    from vyper.compiler.settings import OptimizationLevel, Settings
+    rnd = ctx.rng("c14g_asm")
+    quick = ctx.tier == "quick"
+    progs = PC.select(ctx.tier, rnd)
+    if quick:
+        progs = progs[:10]
+    hangs, nfail = [], 0
+
+    class Hang(Exception):
+        pass
+
+    def on_alarm(*a):
+        raise Hang()
+    t0 = time.time()
+    with warnings.catch_warnings():
+        warnings.simplefilter("ignore")
+        old = signal.signal(signal.SIGALRM, on_alarm)
+        with AsmObserver(max_items=1500 if quick else 6000) as obs:
+            fam_ok = fam_fail = 0
+            try:
+                signal.alarm(150)
+                fam_ok, fam_fail = run_families(obs, rnd, 12 if quick else 150)
+            except Hang:
+                hangs.append("IR families")
+            finally:
+                signal.alarm(0)
+            for ci, c in enumerate(progs):
+                levels = [OptimizationLevel.GAS] + ([OptimizationLevel.CODESIZE] if (not quick or ci < 4) else []) + \
+                    ([OptimizationLevel.O3] if not quick else [])
+                for lvl in levels:
+                    obs.origin = f"corpus:{c['name']}:{lvl.name}"
+                    try:
+                        signal.alarm(40)
+                        compile_code(c["src"], output_formats=["bytecode"], settings=Settings(experimental_codegen=True, optimize=lvl))
+                    except Hang:
+                        hangs.append(c["name"])
+                    except Exception:  # noqa
+                        nfail += 1
+                    finally:
+                        signal.alarm(0)
+                if len(hangs) >= 2:
+                    break
+        signal.signal(signal.SIGALRM, old)
+    t_compile = time.time() - t0
+    if hangs:
+        ctx.violation("correspondence-broken", "compilation does not terminate under observation: " + ", ".join(hangs), {"programs": hangs})
+    if obs.errors:
+        ctx.violation("correspondence-broken", "cannot record an assembly: " + obs.errors[0], {"errors": obs.errors[:5]})
+    items = sorted(obs.items.values(), key=lambda it: (not (it["origin"] or "").startswith("family:"), it["nitems"], it["key"]))
+    cap = 90 if quick else 100000
+    if len(items) > cap:
+        fam = [it for it in items if (it["origin"] or "").startswith("family:")][:cap // 2]
+        rest = [it for it in items if it not in fam]
+        items = fam + rnd.sample(rest, min(len(rest), cap - len(fam)))
+    stats = {"programs": len(progs), "family_compiles": fam_ok, "family_compile_failures": fam_fail, "compile_failures": nfail,
+             "compile_seconds": round(t_compile, 1), "codegen_calls": obs.calls, "distinct_function_assemblies": len(obs.items),
+             "too_big_skipped": obs.too_big, "checked": 0, "accepted": {"raw": 0, "final": 0}, "rejected": {"raw": 0, "final": 0},
+             "no_certificate": {"raw": 0, "final": 0}, "blocks": 0}
+    todo, bad = [], []
+    for it in items:
+        c = Cert(it["fn"], it["asm"]).build()
+        if c.error:
+            stats["no_certificate"][it["kind"]] += 1
+            it["cert_error"] = c.error
+            bad.append(it)
+            continue
+        it["exp"] = export(it["fn"], it["asm"], c)
+        stats["blocks"] += len(c.present)
+        todo.append(it)
+    res = None
+    if model_ok:
+        t0 = time.time()
+        try:
+            res = evaluate(todo)
+        except RuntimeError as e:
+            ctx.violation("correspondence-broken", "asm_cfg_check could not be evaluated on the exported assemblies", {"error": str(e)[-1500:]})
+        stats["coq_seconds"] = round(time.time() - t0, 1)
+    if res is not None:
+        for it, r in zip(todo, res):
+            stats["checked"] += 1
+            if r[0] == 1:
+                stats["accepted"][it["kind"]] += 1
+            else:
+                stats["rejected"][it["kind"]] += 1
+                bad.append(it)
+    found = False
+    nrep = 0
+    for it in bad[:40]:
+        it["witness"] = search(it["fn"], it["asm"])
+    bad.sort(key=lambda it: it.get("witness") is None)
+    for it in bad:
+        if nrep >= 3:
+            break
+        detail = {"assembly": it["kind"] + (" (venom_to_assembly output)" if it["kind"] == "raw" else " (after optimize_assembly)"),
+                  "origin": it["origin"], "function": snap_text(it["fn"])[:5000], "assembly_of_the_function": asm_text(it["asm"])[:5000],
+                  "certificate_error": it.get("cert_error")}
+        if it.get("witness") is not None:
+            nrep += 1
+            found = True
+            ctx.violation("failing-input", "the emitted assembly does not follow the CFG of the Venom function: " + it["witness"]["problem"],
+                          dict(detail, **it["witness"]), key="asm-cfg:" + it["kind"])
+        elif not found:
+            nrep += 1
+            ctx.violation("theorem-broken", "asm_cfg_check_sound does not apply: the emitted assembly is rejected by the verified validator"
+                          + (" (no block layout found: " + it["cert_error"] + ")" if it.get("cert_error") else ""), detail)
+    # the independent machine also runs on every accepted instance (tie of the Coq pc machine to the Python one)
+    disagree = 0
+    for it in todo:
+        if it not in bad and search(it["fn"], it["asm"]) is not None:
+            disagree += 1
+            if disagree == 1:
+                ctx.violation("correspondence-broken", "the Python pc machine finds a wrong landing in an assembly the verified validator accepts",
+                              {"origin": it["origin"], **search(it["fn"], it["asm"])})
+    if not b["ok"] and not found:
+        ctx.violation("theorem-broken", f"{b.get('failed_lemma')} in {b['file']}",
+                      {"theorem": b.get("failed_lemma"), "file": b["file"], "coq_output": b["out"][-1500:]})
+    ctx.corr["asm_cfg"] = stats
+    ctx.log(f"C14G asm: compile {t_compile:.1f}s, coq {stats.get('coq_seconds')}s, function assemblies {len(obs.items)}, checked {stats['checked']}, "
+            f"accepted {stats['accepted']}, rejected {stats['rejected']}, no certificate {stats['no_certificate']}, blocks {stats['blocks']}")
+    ctx.trusted += ["C14G asm: export of the assembly item list (runs of opaque items compressed to one) and of the reduced Venom function "
+                    "(terminator + last code-emitting instruction per block) (tools/vlib/c14g_asm.py); the pc-machine model of AsmCfg.v "
+                    "(label address = index of the label item)"]
+    return stats["checked"]
